@@ -17,7 +17,16 @@ import (
 func (p *Prog) CalleeKeys(c ssa.CallInstruction) []string {
 	cc := c.Common()
 	if cc.IsInvoke() {
-		return []string{ObjKey(cc.Method)}
+		keys := []string{ObjKey(cc.Method)}
+		// a method promoted from an embedded interface (e.g. io.Closer in tsdb.DataFamily) is also
+		// named after the static interface type of the receiver
+		if n, ok := types.Unalias(cc.Value.Type()).(*types.Named); ok && n.Obj().Pkg() != nil {
+			k := ShortPkg(n.Obj().Pkg().Path()) + "." + n.Obj().Name() + "." + cc.Method.Name()
+			if k != keys[0] {
+				keys = append(keys, k)
+			}
+		}
+		return keys
 	}
 	if f := cc.StaticCallee(); f != nil {
 		return []string{p.FuncKey(f)}
@@ -471,4 +480,36 @@ func (p *Prog) Implementers(m *types.Func) []*ssa.Function {
 	}
 	implCache[m] = ded
 	return ded
+}
+
+// RefersTo matches any instruction that has the function (by key) as an operand: a direct call, a
+// method value (bound-method closure), or passing the function as a value. Bound-method and thunk
+// wrappers are resolved to the method they wrap.
+func RefersTo(keys ...string) Matcher {
+	return func(p *Prog, in ssa.Instruction) bool {
+		var ops []*ssa.Value
+		ops = in.Operands(ops)
+		for _, o := range ops {
+			if o == nil || *o == nil {
+				continue
+			}
+			f, ok := (*o).(*ssa.Function)
+			if !ok {
+				continue
+			}
+			k := p.FuncKey(f)
+			if f.Synthetic != "" {
+				if obj, ok := f.Object().(*types.Func); ok && obj != nil {
+					k = ObjKey(obj)
+				} else {
+					// "bound method wrapper for func (T).M" has no Object; strip the $bound suffix
+					k = strings.TrimSuffix(strings.TrimSuffix(k, "$bound"), "$thunk")
+				}
+			}
+			if hasKey([]string{k}, keys) {
+				return true
+			}
+		}
+		return false
+	}
 }
